@@ -878,6 +878,12 @@ pub fn generate(ctx: &mut GenCtx) {
     g.iris.truncate(4);
     g.lexicals.truncate(6);
     let s = |v: &[&str]| v.iter().map(|x| x.to_string()).collect::<Vec<String>>();
+    // which oracle this build has (goes into the evidence's generator_distribution)
+    ctx.stats.bump(if cfg!(has_audit) {
+        "oracle.audit_hook_present"
+    } else {
+        "oracle.audit_hook_ABSENT__only_public_api_aliasing_and_model_witness"
+    });
 
     // the kernel-checked witness (`derive_clone_dangles`), replayed: insert; clone; drop the original; read the clone
     emit_h(ctx, &s(&["new a TI 32", "ens a i 78", "clone a b", "drop a", "all b"]));
